@@ -363,6 +363,13 @@ func runC03(c *Ctx) {
 	if lines := c.Func("length", "Lines"); lines != nil {
 		importPremises(c, "R03.3", "cell-width premise: ", "the column is sized from this measure", nil, func() { c18LongestAll(c, lines, []string{"Cells"}) })
 		importPremises(c, "R03.3", "cell-width premise: ", "the column is sized from the width the cell records", nil, func() { c18WidthStores(c, "R18.2") })
+		if cellT := c.Named("", "Cell"); cellT != nil {
+			if upd := c.MethodOpt(cellT, true, "Update"); upd != nil {
+				importPremises(c, "R03.3", "cell-width premise: ", "a cell that prints text but is recorded as 0 wide makes its lines wider than the column", func(o *Ob) bool {
+					return strings.Contains(o.Construct, "width of 0")
+				}, func() { c18MetricsAssigned(c, upd, c.FieldOpt(cellT, "width"), c.FieldOpt(cellT, "height")) })
+			}
+		}
 		// ... and what is printed for a cell is what was measured: the lines the layout pass measured are the cell's
 		// own lines (Cell.Lines is length.Lines of the text) and the measuring callback records them on every render
 		importPremises(c, "R03.3", "measured-is-printed premise ", "a line printed from a stale or differently split text does not fit the column sized for the current one", func(o *Ob) bool {
@@ -1334,6 +1341,52 @@ func c04Padding(c *Ctx, wwa *ssa.Function, ws *types.Named) {
 		r.Check("R04.3", FuncName(sp.fn), "alignment "+sp.arm+": text once, padded on the documented side(s) by exactly pad", sp.pos, ok, why)
 	}
 	r.Floor("R04.3", "alignment arms", arms, 3)
+	// a slot without the text: only for the "no such line" marker (a negative width), never for a real line however
+	// narrow - a line of zero display width (a combining mark, an escape sequence with a declared width of 0)
+	// is still that cell's text
+	for i, ret := range returnsOf(wwa) {
+		hasText := false
+		for _, v := range phiClosure(results(ret)[0]) {
+			for _, part := range concatParts(v) {
+				if isS(part) {
+					hasText = true
+				}
+				if call, isCall := part.(*ssa.Call); isCall {
+					for _, a := range call.Call.Args {
+						if isS(a) {
+							hasText = true
+						}
+					}
+				}
+			}
+		}
+		if hasText {
+			continue
+		}
+		var wv ssa.Value
+		eachInstr(wwa, func(in ssa.Instruction) {
+			if v, ok := in.(ssa.Value); ok {
+				if f, b := loadedField(v); f == wF {
+					if al, isAl := b.(*ssa.Alloc); (isAl && p.spillOf(al) == wwa.Params[0]) || b == ssa.Value(wwa.Params[0]) {
+						if instrDominates(in, ret) {
+							wv = v
+						}
+					}
+				}
+			}
+		})
+		okNeg := false
+		if wv != nil {
+			okNeg, _ = p.prove(leq(p.linOf(wv), linConst(-1), "blank slot only for the negative-width marker"), ret, nil, 0)
+		}
+		// ... or where the text is known to be empty anyway
+		for _, cf := range expandConds(dominatingConds(ret.Block())) {
+			if emptinessTest(cf.Cond, cf.Val, isS) {
+				okNeg = true
+			}
+		}
+		r.Check("R04.3", name, fmt.Sprintf("return #%d leaves the text out only under W < 0", i+1), ret.Pos(), okNeg, "a slot made of spaces alone is returned for widths that real lines can have (W == 0): their text is dropped")
+	}
 	// unset alignment means left
 	okNil := false
 	eachInstr(wwa, func(in ssa.Instruction) {
